@@ -117,7 +117,7 @@ def rule_words(rep, prog, adt, field, reset_names=("reset",)):
                 counts["harvest"] += 1
                 rts = b.return_terms()
                 this = deep_strip(b.call_term(c.t, c.pos, 0))
-                ok = len(rts) == 1 and deep_strip(rts[0][1]) == this
+                ok = (len(rts) == 1 and deep_strip(rts[0][1]) == this) or _pushed_unmodified(b, this)
                 rep("R8.3.harvest", inst, ok, c.where(),
                     "fetch_and(0): the RMW's own return value must be what the enclosing body returns, unmodified "
                     f"(returns {tstr(deep_strip(rts[0][1])) if len(rts) == 1 else 'multi'})")
@@ -134,7 +134,7 @@ def rule_words(rep, prog, adt, field, reset_names=("reset",)):
             counts["harvest"] += 1
             rts = b.return_terms()
             this = deep_strip(b.call_term(c.t, c.pos, 0))
-            ok = len(rts) == 1 and deep_strip(rts[0][1]) == this
+            ok = (len(rts) == 1 and deep_strip(rts[0][1]) == this) or _pushed_unmodified(b, this)
             rep("R8.3.harvest", inst, ok, c.where(), "swap(0): return value must be reported unmodified")
             continue
         rep("R8.1.unrecognised", inst, False, c.where(), f"atomic operation `{op}` on a bitmap word is not one of load / single-bit fetch_or / single-bit fetch_and / fetch_and(0) / reset's store(0)")
@@ -163,6 +163,20 @@ def rule_field_census(rep, prog, adt, field):
             root = prog.by_id.get(b.root, b)
             rep("R8.4.owner", strip_generics(b.id), root.self_adt == adt, b.where(), f"only methods of {adt} may touch its words")
     return n
+
+
+def _pushed_unmodified(b, this):
+    """loop form of the harvester: `out.push(word.fetch_and(0))` with `out` the vector the function returns — the RMW's
+    own value goes into the result unmodified (same as the closure of `.map(|w| w.fetch_and(0)).collect()` returning it)"""
+    from ..pat import unref
+    rts = b.return_terms()
+    if len(rts) != 1:
+        return False
+    ret = unref(rts[0][1])
+    if not is_call(ret, "Vec::with_capacity", "Vec::new"):
+        return False
+    pushes = [c for c in b.calls() if canon(c.target or "").endswith("Vec::push")]
+    return len(pushes) == 1 and unref(pushes[0].arg(0)) == ret and deep_strip(pushes[0].arg(1)) == this
 
 
 def _places(s):
